@@ -120,13 +120,22 @@ impl BarAbs {
                     }
                     let pos = self.pos;
                     let len = self.len.unwrap_or(pos);
-                    match key.as_str() {
+                    // a style attribute - `{msg:.green}` - puts SGR sequences around the value
+                    // (colours are on): invisible, but the line is no longer an empty string
+                    let is_styled = key.contains(':');
+                    if is_styled {
+                        cur.push_str("\x1b[1m");
+                    }
+                    match key.split(':').next().unwrap_or("") {
                         "msg" => cur.push_str(&self.expand(&self.msg)),
                         "prefix" => cur.push_str(&self.expand(&self.prefix)),
                         "pos" => cur.push_str(&pos.to_string()),
                         "len" => cur.push_str(&len.to_string()),
                         "obs" => cur.push_str(&self.expand(&self.obs_text)),
                         _ => {}
+                    }
+                    if is_styled {
+                        cur.push_str("\x1b[0m");
                     }
                     i = j + 1;
                 }
